@@ -4,6 +4,7 @@ CONSTANTS
   MaxEdits = 2
   Limit = 1
   ReadOnly = FALSE
+  InitDisks = {"A", "E"}
   Watch = "none"
 SPECIFICATION Spec
 VIEW View
